@@ -8,12 +8,13 @@ package dagutils
 // list with the real ApplyChange to a and log the projection of the result.  The trace is validated
 // by spec/DagDiff/TraceDagDiff.tla.
 //
-// Projection (trusted, tiny): a flat tree is a list of [path, dataId]; dataId 0 <-> the UnixFS
-// directory payload {0x08,0x01}, dataId 100+m <-> the UnixFS directory payload with metadata
-// (mode 0700+m: {0x08,0x01,0x38,varint}), dataId 0<i<100 <-> the payload "leaf-<i>"; a CID is projected to the
-// flat subtree it was built from (table filled while building a and b); a real node is projected by
-// walking its links through the DAG service.  Directories of any directory id may be empty or
-// populated, at the root or nested.
+// Projection (trusted, tiny): a flat tree is a list of [path, label], label = [dataId, builderId]; dataId 0 <-> the
+// UnixFS directory payload {0x08,0x01}, dataId 100+m <-> the UnixFS directory payload with metadata
+// (mode 0700+m: {0x08,0x01,0x38,varint}), dataId 0<i<100 <-> the payload "leaf-<i>"; builderId 0 <-> CIDv0
+// (sha2-256), 1 <-> CIDv1 dag-pb sha2-256, 2 <-> CIDv1 dag-pb sha2-512 (same bytes, another CID).  A CID is
+// projected to the flat subtree it was built from (table filled while building a and b); a real node is projected
+// by walking its links through the DAG service, its label taken from its Data and from the PREFIX OF ITS CID.
+// Nodes of any payload may have any builder: directories empty or populated, leaves, at the root or nested.
 
 import (
 	"context"
@@ -28,14 +29,18 @@ import (
 	mdtest "github.com/ipfs/boxo/ipld/merkledag/test"
 	cid "github.com/ipfs/go-cid"
 	ipld "github.com/ipfs/go-ipld-format"
+	mh "github.com/multiformats/go-multihash"
 )
 
-// c14Tree: path (joined with "/", "" = root) -> data id
-type c14Tree map[string]int
+// c14Label: [data id, CID builder id] -- what, together with the entries, determines the node's CID
+type c14Label [2]int
+
+// c14Tree: path (joined with "/", "" = root) -> label
+type c14Tree map[string]c14Label
 
 type c14Entry struct {
 	P []string
-	D int
+	D c14Label
 }
 
 func (e *c14Entry) UnmarshalJSON(b []byte) error {
@@ -117,7 +122,24 @@ var c14DirData = []byte{0x08, 0x01} // UnixFS Data{Type: Directory}
 
 const c14DirBase = 100 // data ids >= c14DirBase: directory payloads with metadata
 
-func c14IsDir(d int) bool { return d == 0 || d >= c14DirBase }
+func c14IsDir(l c14Label) bool { return l[0] == 0 || l[0] >= c14DirBase }
+
+// CID builders (trusted): 0 = the ProtoNode default
+var c14Builders = []cid.Prefix{
+	dag.V0CidPrefix(),
+	dag.V1CidPrefix(),
+	{Version: 1, Codec: cid.DagProtobuf, MhType: mh.SHA2_512, MhLength: -1},
+}
+
+func c14BuilderID(c cid.Cid) int {
+	p := c.Prefix()
+	for k, b := range c14Builders {
+		if p.Version == b.Version && p.Codec == b.Codec && p.MhType == b.MhType {
+			return k
+		}
+	}
+	return -1
+}
 
 func c14Payload(d int) []byte {
 	if d == 0 {
@@ -155,7 +177,10 @@ type c14Sys struct {
 
 // build stores the real nodes of t (rooted at path p) bottom-up and returns the root node.
 func (s *c14Sys) build(t c14Tree, p string) *dag.ProtoNode {
-	nd := dag.NodeWithData(c14Payload(t[p]))
+	nd := dag.NodeWithData(c14Payload(t[p][0]))
+	if err := nd.SetCidBuilder(c14Builders[t[p][1]]); err != nil {
+		panic(err)
+	}
 	for _, name := range t.children(p) {
 		cp := name
 		if p != "" {
@@ -169,6 +194,9 @@ func (s *c14Sys) build(t c14Tree, p string) *dag.ProtoNode {
 	if err := s.ds.Add(s.ctx, nd); err != nil {
 		panic(err)
 	}
+	if c14BuilderID(nd.Cid()) != t[p][1] {
+		panic(fmt.Sprintf("builder %d gives CID %s", t[p][1], nd.Cid()))
+	}
 	s.byCid[nd.Cid()] = t.sub(p)
 	return nd
 }
@@ -177,10 +205,10 @@ func (s *c14Sys) build(t c14Tree, p string) *dag.ProtoNode {
 func (s *c14Sys) project(nd ipld.Node, p string, out c14Tree) error {
 	pn, ok := nd.(*dag.ProtoNode)
 	if !ok {
-		out[p] = -2
+		out[p] = c14Label{-2, -2}
 		return nil
 	}
-	out[p] = c14DataID(pn.Data())
+	out[p] = c14Label{c14DataID(pn.Data()), c14BuilderID(pn.Cid())}
 	for _, l := range pn.Links() {
 		child, err := l.GetNode(s.ctx, s.ds)
 		if err != nil {
@@ -207,7 +235,7 @@ func (s *c14Sys) cidTree(c cid.Cid) []any {
 	if t, ok := s.byCid[c]; ok {
 		return t.flat()
 	}
-	return []any{[]any{[]string{"?unknown-cid"}, -9}}
+	return []any{[]any{[]string{"?unknown-cid"}, c14Label{-9, -9}}}
 }
 
 func (s *c14Sys) runCase(a, b c14Tree) {
@@ -243,6 +271,15 @@ type c14Gen struct {
 	rnd interface{ Intn(int) int }
 	names []string
 	leaves, dirMetas, maxDepth, maxFan int
+	base int // CID builder of most nodes of the current pair
+}
+
+// CID builder of a new node: mostly the pair's base builder, sometimes any other
+func (g *c14Gen) builder() int {
+	if g.rnd.Intn(6) == 0 {
+		return g.rnd.Intn(len(c14Builders))
+	}
+	return g.base
 }
 
 // own data of a directory: mostly the plain payload, sometimes one with metadata
@@ -257,13 +294,13 @@ func (g *c14Gen) subtree(t c14Tree, p string, depth int) {
 	// leaf with probability growing with depth; else directory with 0..maxFan entries
 	if depth >= g.maxDepth || g.rnd.Intn(10) < 3+2*depth {
 		if g.rnd.Intn(6) == 0 {
-			t[p] = g.dirData() // empty directory
+			t[p] = c14Label{g.dirData(), g.builder()} // empty directory
 		} else {
-			t[p] = 1 + g.rnd.Intn(g.leaves)
+			t[p] = c14Label{1 + g.rnd.Intn(g.leaves), g.builder()}
 		}
 		return
 	}
-	t[p] = g.dirData()
+	t[p] = c14Label{g.dirData(), g.builder()}
 	fan := g.rnd.Intn(g.maxFan + 1)
 	for _, i := range c14Perm(g.rnd, len(g.names))[:fan] {
 		cp := g.names[i]
@@ -294,7 +331,29 @@ func (t c14Tree) remove(p string) {
 	}
 }
 
+// rebuild: the node at p (alone, or with everything below it: a re-import with other CID settings) gets another CID
+// builder; payloads and entries stay what they are
+func (g *c14Gen) rebuild(t c14Tree) {
+	var all []string
+	for k := range t {
+		all = append(all, k)
+	}
+	sort.Strings(all)
+	p := all[g.rnd.Intn(len(all))]
+	k := (t[p][1] + 1 + g.rnd.Intn(len(c14Builders)-1)) % len(c14Builders)
+	whole := g.rnd.Intn(2) == 0
+	for q, l := range t {
+		if q == p || (whole && (p == "" || strings.HasPrefix(q, p+"/"))) {
+			t[q] = c14Label{l[0], k}
+		}
+	}
+}
+
 func (g *c14Gen) edit(t c14Tree) {
+	if g.rnd.Intn(6) == 0 {
+		g.rebuild(t)
+		return
+	}
 	// pick a directory node (sorted for determinism), then a slot under it
 	var dirs []string
 	for k, d := range t {
@@ -305,13 +364,13 @@ func (g *c14Gen) edit(t c14Tree) {
 	sort.Strings(dirs)
 	p := dirs[g.rnd.Intn(len(dirs))]
 	if g.rnd.Intn(5) == 0 { // change the directory's own data, keeping its entries (p may be the root)
-		d := t[p]
-		for d == t[p] {
+		d := t[p][0]
+		for d == t[p][0] {
 			if d = c14DirBase + g.rnd.Intn(g.dirMetas); g.rnd.Intn(3) == 0 {
 				d = 0
 			}
 		}
-		t[p] = d
+		t[p] = c14Label{d, t[p][1]}
 		return
 	}
 	name := g.names[g.rnd.Intn(len(g.names))]
@@ -359,7 +418,11 @@ func TestVerifC14(t *testing.T) {
 	g := &c14Gen{rnd: rnd, names: []string{"a", "b", "c", "d", "e", "f"}, leaves: 3, dirMetas: 2, maxDepth: 4, maxFan: 6}
 	n := vEnvInt("C14_RANDOM", 0)
 	for i := 0; i < n; i++ {
-		anc := c14Tree{"": 0}
+		g.base = 0
+		if rnd.Intn(4) == 0 {
+			g.base = 1 + rnd.Intn(len(c14Builders)-1)
+		}
+		anc := c14Tree{"": c14Label{0, g.base}}
 		fan := 1 + rnd.Intn(g.maxFan)
 		for _, k := range c14Perm(rnd, len(g.names))[:fan] {
 			g.subtree(anc, g.names[k], 1)
